@@ -273,7 +273,9 @@ func runC11(env *Env) error {
 	}
 
 	nodes := []ANode{{"alice", "a.com", "home"}, {"bob", "b.org", ""}, {"carol", "", "x"}}
-	docs := []*ADoc{nil, {Kind: "text", Text: "hello"}, {Kind: "ping"}}
+	docs := []*ADoc{nil, {Kind: "text", Text: "hello"}, {Kind: "ping"},
+		// text that JSON must escape in its own way (control characters, DEL, a rune beyond the basic plane)
+		{Kind: "text", Text: "esc\x1b[31mred\x1b[0m"}, {Kind: "text", Text: "del\x7f bell\a vt\v"}, {Kind: "text", Text: "plane16 \U0010FFFD \u2028"}}
 	j := JObj(KV("k", JInt(1)))
 	docs = append(docs, &ADoc{Kind: "json", JSON: &j})
 	for i := 0; i < env.Pick(4, 30); i++ {
@@ -372,8 +374,12 @@ func runC11(env *Env) error {
 				q.To = nodes[2]
 			}
 			// followed, on the same session, by pings with other ids and addressing
-			q2 := &AEnv{Kind: "req", ID: fmt.Sprintf("ping-%d-b", mask), Method: "get", URI: normURI("/ping"), From: nodes[2]}
-			q3 := &AEnv{Kind: "req", ID: fmt.Sprintf("ping-%d-c", mask), Method: "get", URI: normURI("/ping"), PP: nodes[0], To: nodes[1]}
+			// (the other ways of writing the ping address: absolute, and with a query)
+			q2 := &AEnv{Kind: "req", ID: fmt.Sprintf("ping-%d-b", mask), Method: "get", URI: normURI("lime://localhost/ping"), From: nodes[2]}
+			q3 := &AEnv{Kind: "req", ID: fmt.Sprintf("ping-%d-c", mask), Method: "get", URI: normURI("/ping?x=y"), PP: nodes[0], To: nodes[1]}
+			if mask%2 == 0 {
+				q2.URI = normURI("lime://postmaster@verif.test/ping")
+			}
 			cs, err := pingVia(via, []*AEnv{q, q2, q3})
 			if err != nil {
 				return err
